@@ -2,7 +2,7 @@
 import argparse, os, sys
 
 ENGINE = {
-    "C01": "layout", "C02": "layout", "C03": "layout", "C04": "layout", "C05": "layout", "C19": "layout", "C17": "layout", "C08": "multirange", "C11": "grid",
+    "C01": "layout", "C02": "layout", "C03": "layout", "C04": "layout", "C05": "layout", "C19": "layout", "C17": "layout", "C08": "multirange", "C11": "grid", "C14": "inidoc",
 }
 
 
